@@ -155,7 +155,7 @@ h_to_array(int cls, int n)
 
     if (n > 0) {
         CHECK("to_array returns an array", a != NULL);
-        CBMC_ONLY(CHECK("to_array: room for count elements", a == NULL || __CPROVER_OBJECT_SIZE(a) >= sizeof(spif_obj_t) * (size_t) n));
+        CHECK("to_array: room for count elements", a == NULL || OBJ_SIZE(a) >= sizeof(spif_obj_t) * (size_t) n);
         for (i = 0; i < n && a; i++) {
             CHECK("to_array: elements in order", a[i] == s.o[i]);
         }
